@@ -1174,7 +1174,7 @@ search:
 	p.Note("new_states_per_depth", perLevel)
 	p.Note("alphabet_size", len(alphabet))
 	p.Note("replay_determinism_self_checks", selfChecks)
-	p.Note("not_covered", "listener add/update/remove; xDS route/listener conversion; concurrent lookups (E1 part)")
+	p.Note("not_covered", "listener add/update/remove; xDS route/listener conversion (concurrent lookups: part cluster-swap-schedules)")
 	p.End(complete,
 		fmt.Sprintf("every history of <= %d operations over an alphabet of %d operations (routers r1,r2; clusters c1,c2 and an unknown c9; hosts h1,h1',h2,h3; endpoint assignments with 0,1,2 localities; xDS EDS and STATIC cluster messages), successors expanded from every distinct canonical state", depth, len(alphabet)),
 		"BFS; a state is an operation history replayed on reset singletons; states merged on canonical form (live route tables, stored router configs, live ordered host lists, dump); distinct = distinct canonical states; outcome = last operation kind x error; oracles: live == objects rebuilt from the dump, and a reference model for last-update-wins / removed-is-gone / union-of-localities; not compared (statement silent): content after invalid router configs, AddRoute/RemoveAllRoutes on unlisted domains, effect of rejected updates on existing objects, hosts kept by a cluster-only update")
